@@ -243,6 +243,37 @@ def run_check(cfg, tier, seed):
         elif not hok:
             tie_errors.append("harness does not build against the current tree: " + hout[-3000:])
 
+        # ---- search: a proof obligation is broken and the tier's own run found no failing input:
+        # look for one with the thorough generator before giving up
+        if not pr["ok"] and not failures and tier == "quick" and hok and os.path.exists(core.HOPMODEL):
+            notes.append("proof obligation broken, no disagreement in the quick run: searching with the thorough generator")
+            for suite in cfg.suites:
+                if failures:
+                    break
+                parts = suite.parts_thorough
+                ties = [core.Tie(pid, suite.name, "thorough", seed, work, p, parts, suite.tags, suite.suite_arg)
+                        for p in range(parts)]
+                sstats = {"ops": 0, "cases": 0, "distinct": set(), "hist": collections.Counter(), "samples": []}
+
+                def one_s(t, suite=suite):
+                    ok, err = t.generate()
+                    if not ok:
+                        return ["generator failed: " + err[-500:]]
+                    if suite.kind == "monitor":
+                        return execute_monitor(t, suite)
+                    return t.execute(min(suite.timeout, 900), suite.env)
+                with ThreadPoolExecutor(max_workers=min(parts, os.cpu_count() or 4)) as ex:
+                    list(ex.map(one_s, ties))
+                for t in ties:
+                    if os.path.exists(t.path("impl")) and os.path.exists(t.path("model")):
+                        analyse_part(pid, suite, t, sstats, failures)
+                    for n in ("ops", "impl", "model"):
+                        try:
+                            os.remove(t.path(n))
+                        except FileNotFoundError:
+                            pass
+                stats_all[suite.name + " (search)"] = sstats
+
         # ---- decide
         known = [k for k in core.load_known() if k.get("property") == pid and k.get("status") == "known"]
         seen_sigs = []
